@@ -29,8 +29,9 @@ RULES = {
     "R8": "the sample container the code indexes (ThetaHolder.add_theta / get_theta) refuses out-of-range indices and returns the i-th added sample (C10.R3 run here)",
     "R9": "the view algebra predictions on subsets rely on: attribute properties read the parent at the selected rows, subset composes selections, combine / concat are unions (C14.R1, C14.R3 run here)",
     "R10": "samples come back from a file in the order they were saved (ThetaHolder save/load agreement, C10.R1 run here): the stacked helpers' rows are the collection's samples in order",
+    "R11": "predictions are made on the view's rows as they are now: no getter of a view or of the screen keeps a result derived from state that Plate.merge / set_observed mutate",
 }
-MIN = {"R1": 8, "R2": 3, "R3": 2, "R4": 5, "R5": 4, "R6": 5, "R7": 2, "R8": 3, "R9": 12, "R10": 9}
+MIN = {"R1": 8, "R2": 3, "R3": 2, "R4": 5, "R5": 4, "R6": 5, "R7": 2, "R8": 3, "R9": 12, "R10": 9, "R11": 2}
 TRUSTED = ["numpy: advanced indexing copies; negative index -1 selects the last row (which the helper then zeroes)",
            "expit/clip are element-wise"]
 TECHNIQUE = "freshness analysis over the predict call closure, polynomial normal forms with symmetry/substitution checks"
@@ -487,7 +488,11 @@ def r_br10(ctx):
     ctx.borrow(C10.r1, "R10")
 
 
-RULE_FUNCS = [r1, r2, r3, r4, r5, r6, r_derived, r_holder, r_br9, r_br10]
+def r11(ctx):
+    common.no_stale_memo(ctx, "R11")
+
+
+RULE_FUNCS = [r1, r2, r3, r4, r5, r6, r_derived, r_holder, r_br9, r_br10, r11]
 
 
 def _rep(a, b):
@@ -499,6 +504,8 @@ def _rep(a, b):
 
 
 WITNESSES = [
+    ("view caches its sample ids", "batchie.data",
+     _rep("    @property\n    def sample_ids(self):\n        return self.screen.sample_ids[self.selection_vector]", "    @functools.cached_property\n    def sample_ids(self):\n        return self.screen.sample_ids[self.selection_vector]"), ["R11"]),
     ("helper zeroes a view", "batchie.common", _rep("results = arr[treatment_array, ...]", "results = arr[...]"), ["R1", "R4"]),
     ("V1 terms subtracted", "batchie.models.sparse_combo",
      _rep("                mcmc_sample.V1, data.treatment_ids[:, 0]\n            )\n            + copy_array", "                mcmc_sample.V1, data.treatment_ids[:, 0]\n            )\n            - copy_array"), ["R3"]),
